@@ -540,7 +540,9 @@ class MarkdownNormalizer(Renderer):
         """
         link_text = element.dest
         if element.title:
-            link_text += f" {_normalize_title_quotes(element.title)}"
+            # The title of a definition is kept as written, including its delimiters
+            # (`"..."`, `'...'` or `(...)`) and escapes.
+            link_text += f" {element.title}"
         result = f"{self._prefix}[{element.label}]: {link_text}\n"
         self._prefix = self._second_prefix
         self._suppress_item_break = True
